@@ -503,6 +503,11 @@ func (e *ssaEval) instr(fr *frame, ins ssa.Instruction) {
 			set(x, sv{k: svAddr, s: fmt.Sprintf("list:%s:%d", a.s, a.i+i.i)})
 			return
 		}
+		if a.op == "slice" && len(a.args) == 3 && a.args[0].k == svAddr && a.args[1].s == "_" && i.k == svInt {
+			// an element of a whole-array slice is the element of the array
+			set(x, sv{k: svAddr, s: fmt.Sprintf("%s[%d]", a.args[0].s, i.i)})
+			return
+		}
 		if (a.k == svAddr || a.k == svSym) && i.known() {
 			set(x, sv{k: svAddr, s: a.s + "[" + i.String() + "]"})
 		}
@@ -872,6 +877,11 @@ func (e *ssaEval) doCall(fr *frame, x *ssa.Call) sv {
 			}
 			if len(args) == 1 && args[0].k == svNil {
 				return intV(0)
+			}
+			if len(args) == 1 && args[0].op == "slice" {
+				if el, ok := e.elems(args[0]); ok && len(el) > 0 {
+					return intV(int64(len(el)))
+				}
 			}
 		case "append":
 			if len(args) == 2 && (args[0].k == svList || args[0].k == svNil) {
